@@ -11,9 +11,9 @@ from .smt import S, I, SeqS
 from .vx import (V, NONE, RAISE, HList, HDict, St, OutOfReach, fresh, fresh_name,
                  vint, vbool, vstr, vopq, GHOST_SEQ_FIELDS, GHOST_LIST_FIELDS, CTX_NAMES)
 
-SPEC_BUILTINS = {"tainted_calls", "derived", "call_result", "call_arg", "same_object", "memo_coherent", "sql_count", "sql_kind", "sql_text", "sql_params", "expr_value", "parses_as_int", "prefix", "appended", "keys_of", "implies", "is_str", "is_none", "seq_len", "logged"}
+SPEC_BUILTINS = {"call_kw", "tainted_calls", "derived", "call_result", "call_arg", "same_object", "memo_coherent", "sql_count", "sql_kind", "sql_text", "sql_params", "expr_value", "parses_as_int", "prefix", "appended", "keys_of", "implies", "is_str", "is_none", "seq_len", "logged"}
 BUILTIN_NAMES = {
-    "tainted_calls", "derived", "call_result", "call_arg", "same_object", "memo_coherent", "sql_count", "sql_kind", "sql_text", "sql_params", "expr_value", "parses_as_int", "prefix", "appended", "keys_of", "implies", "is_str", "is_none", "seq_len", "logged",
+    "call_kw", "tainted_calls", "derived", "call_result", "call_arg", "same_object", "memo_coherent", "sql_count", "sql_kind", "sql_text", "sql_params", "expr_value", "parses_as_int", "prefix", "appended", "keys_of", "implies", "is_str", "is_none", "seq_len", "logged",
     "len", "int", "str", "max", "min", "isinstance", "callable", "tuple", "list", "map",
     "range", "reversed", "sorted", "any", "all", "ord", "chr", "set", "frozenset", "dict",
     "float", "abs", "round", "repr", "bool", "enumerate", "zip", "iter", "next", "print",
@@ -58,6 +58,8 @@ def make_param(x, st: St, name: str, spec):
         return from_const(x, st, c)
     if spec == "float":
         return V("float", "p:" + name)
+    if spec == "intset":
+        return V("iset", name)
     if spec == "strset":
         return V("sset", name)
     if spec == "optstrset":
@@ -296,6 +298,10 @@ def contains(x, st, cont: V, item: V, node):
             return z3.Function("has!" + cont.t["name"], S, z3.BoolSort())(t)
     if cont.k == "smap":
         return smap_has(x, cont, item)
+    if cont.k == "iset":
+        t = x.as_int(item)
+        if t is not None:
+            return z3.Function("member!" + cont.t, I, z3.BoolSort())(t)
     if cont.k == "sset":
         t = x.as_str(item)
         if t is not None:
@@ -1218,7 +1224,7 @@ def call_callback(x, st, name, cbname, pos, kw, node):
     else:
         outs.append((st, fresh(rk, "cbret")))
     for s_, r_ in outs:
-        x.log_call(s_, name, pos, r_)
+        x.log_call(s_, name, pos, r_, kw)
     if x.mode == "frame" and spec.get("may_raise", True):
         outs.append(_raise_fork(x, st, node))
     return outs
@@ -1242,7 +1248,11 @@ def call_ctxmethod(x, st, name, pos, kw, node, chain):
     cls = mod.top["Wtp"]
     fn = next((n for n in cls.body if isinstance(n, ast.FunctionDef) and n.name == name), None)
     fv = V("func", ("def", fn, (), mod))
-    return call_def(x, st, fv, [V("ctx", "ctx")] + list(pos), kw, node, chain)
+    x._ctx_call = True
+    try:
+        return call_def(x, st, fv, [V("ctx", "ctx")] + list(pos), kw, node, chain)
+    finally:
+        x._ctx_call = False
 
 
 def bind_args(x, fn, pos, kw, st, defaults_chain):
@@ -1281,7 +1291,7 @@ def call_def(x, st, f: V, pos, kw, node, chain):
     name = getattr(fn, "name", "<lambda>")
     if c is not None and not c.inline and not (x.c.target == c.target and False):
         return apply_contract(x, st, c, fn, pos, kw, node, chain)
-    x.log_call(st, name, pos)
+    x.log_call(st, name, pos, None, kw)
     if x.mode == "frame":
         if tag == "lambda" or (tag == "def" and _small(fn) and x.depth < 2):
             return inline(x, st, f, pos, kw, node)
@@ -1378,7 +1388,7 @@ def apply_contract(x, st, c, fn, pos, kw, node, chain):
     else:
         cands = [(st, fresh(rk, "ret"))]
     for s, r in cands:
-        x.log_call(s, c.target.split(":")[-1].rsplit(".", 1)[-1], pos, r)
+        x.log_call(s, c.target.split(":")[-1].rsplit(".", 1)[-1], pos, r, kw)
         for eff in getattr(c, "effects", []) or []:
             apply_effect(x, s, eff, bound)
         env = dict(bound)
@@ -2003,6 +2013,15 @@ def spec_builtin(x, st, name, pos, kw, node):
     """functions available in contract clauses only"""
     def g(v):
         return st.ghost[v.t] if v.k == "gref" else v
+    if name == "call_kw":
+        cn = x.const_of(pos[0])[0]
+        i = x.const_of(pos[1])[0]
+        kn = x.const_of(pos[2])[0]
+        ents = [e for e in st.log if e and e[0] == "call" and e[1] == cn]
+        kws = dict(ents[i][4]) if (-len(ents) <= i < len(ents)) and len(ents[i]) > 4 else {}
+        if kn not in kws:
+            return [(st, RAISE("ClauseError", f"no logged call #{i} of {cn} with keyword {kn}"))]
+        return [(st, kws[kn])]
     if name in ("call_result", "call_arg"):
         cn = x.const_of(pos[0])[0]
         i = x.const_of(pos[1])[0]
